@@ -17,7 +17,7 @@ Section ChainAgree.
     length row = length row' ->
     (forall q, (q < p \/ p + length ops <= q)%nat -> nth q row None = nth q row' None) ->
     chain d ops p t row = chain d ops p t row'.
-  Proof. Time idtac.
+  Proof.
     induction ops as [|o r IH]; intros p t row row' Hl Hq; cbn [chain].
     - apply (nth_ext _ _ None None Hl). intros q _. apply Hq. simpl. lia.
     - apply IH.
@@ -31,7 +31,7 @@ Section ChainAgree.
 
   Lemma chain_nth_out ops : forall p t row q, (q < p \/ p + length ops <= q)%nat ->
     nth q (chain d ops p t row) None = nth q row None.
-  Proof. Time idtac.
+  Proof.
     induction ops as [|o r IH]; intros p t row q Hq; cbn [chain]; [reflexivity|].
     rewrite IH by (simpl in Hq; lia). apply nth_upd_neq. simpl in Hq. lia.
   Qed.
@@ -61,7 +61,7 @@ Section Est0.
       forall q, (length (get_job I j) <= q)%nat -> nth q (nth j e []) None = nth q (nth j e' []) None.
 
   Lemma recompute0_agree e e' : pad_agree e e' -> recompute I d0 e = recompute I d0 e'.
-  Proof. Time idtac.
+  Proof.
     intros [Hl Hr]. apply (nth_ext _ _ [] []).
     - rewrite !length_recompute. exact Hl.
     - intros j Hj. rewrite length_recompute in Hj.
@@ -71,14 +71,14 @@ Section Est0.
   Qed.
 
   Lemma pad_agree_recompute d e : pad_agree (recompute I d e) e.
-  Proof. Time idtac.
+  Proof.
     split; [apply length_recompute|]. intros j Hj. rewrite length_recompute in Hj.
     rewrite nth_recompute by exact Hj. split; [apply length_chain|].
     intros q Hq. apply chain_nth_out. rewrite skipn_length. lia.
   Qed.
 
   Lemma pad_agree_eset e j p z : (p < length (get_job I j))%nat -> pad_agree (eset e j p z) e.
-  Proof. Time idtac.
+  Proof.
     intros Hp. unfold eset. split; [apply length_upd|]. intros j' Hj'. rewrite length_upd in Hj'.
     destruct (Nat.eq_dec j j') as [<-|Hne].
     - rewrite nth_upd_eq by exact Hj'. split; [apply length_upd|].
@@ -124,28 +124,43 @@ Section Obj.
     end.
 
   Lemma sk_robj d s o : sk (robj d s o) = sk o.
-  Proof. Time idtac.
+  Proof.
     destruct o as [k a b c e rm rj dq cs cm cn]. destruct k, a, b, c; reflexivity.
   Qed.
 
   Lemma sk_upd_obs d x s o : sk (upd_obs I fs d x s o) = sk o.
-  Proof. Time idtac.
+  Proof.
     destruct o as [k a b c e rm rj dq cs cm cn]. destruct k, a, b, c; reflexivity.
   Qed.
 
   Lemma robj_ext d s s' o : (forall c, In c (fo_comps o) -> fget s c = fget s' c) -> robj d s o = robj d s' o.
-  Proof. Time idtac.
+  Proof.
     intros H. unfold robj. destruct (fo_kind o); try reflexivity.
     rewrite (comp_mats_ext s s' (fo_comps o) H). reflexivity.
   Qed.
 
+  Lemma robj_est_explicit d s a b c e rm rj dq cs cm cn :
+    robj d s (mkfo FEst a b c e rm rj dq cs cm cn) =
+    mkfo FEst (option_map (fun _ => est_ops I fs d (recompute I d e)) a)
+              (option_map (fun _ => est_mach I fs d (recompute I d e)) b)
+              (option_map (fun _ => est_jobs I fs d (recompute I d e) (zeros (num_jobs I))) c)
+              (recompute I d e) rm rj dq cs cm cn.
+  Proof. destruct a, b, c; reflexivity. Qed.
+
+  Lemma upd_est_explicit d x s a b c e rm rj dq cs cm cn :
+    upd_obs I fs d x s (mkfo FEst a b c e rm rj dq cs cm cn) =
+    mkfo FEst
+      (option_map (fun _ => est_ops I fs d (recompute I d (eset e (s_job x) (s_pos x) (s_start x)))) a)
+      (option_map (fun _ => est_mach I fs d (recompute I d (eset e (s_job x) (s_pos x) (s_start x)))) b)
+      (option_map (fun v => est_jobs I fs d (recompute I d (eset e (s_job x) (s_pos x) (s_start x))) v) c)
+      (recompute I d (eset e (s_job x) (s_pos x) (s_start x))) rm rj dq cs cm cn.
+  Proof. destruct a, b, c; reflexivity. Qed.
+
   Lemma robj_idem s o : robj d0 s (robj d0 s o) = robj d0 s o.
-  Proof. Time idtac.
+  Proof.
     destruct o as [k a b c e rm rj dq cs cm cn]. destruct k.
     - destruct a, b, c; reflexivity.
-    - unfold robj, init_simple, est_features, zeroed, set_feats, set_est.
-      cbn [fo_kind fo_ops fo_mach fo_jobs fo_est fo_remm fo_remj fo_dq fo_comps fo_cmat fo_cnames].
-      unfold d0. rewrite (recompute0_recompute I (init_d I) e).
+    - rewrite !robj_est_explicit. unfold d0. rewrite (recompute0_recompute I (init_d I) e).
       destruct a, b, c; reflexivity.
     - destruct a, b, c; reflexivity.
     - destruct a, b, c; reflexivity.
@@ -161,12 +176,11 @@ Section Obj.
   Lemma robj_upd d x s s' o :
     (s_pos x < length (get_job I (s_job x)))%nat ->
     robj d0 s (upd_obs I fs d x s' o) = robj d0 s o.
-  Proof. Time idtac.
+  Proof.
     intros Hp. destruct o as [k a b c e rm rj dq cs cm cn]. destruct k.
     - destruct a, b, c; reflexivity.
-    - unfold robj, upd_obs, init_simple, est_features, zeroed, set_feats, set_est.
-      cbn [fo_kind fo_ops fo_mach fo_jobs fo_est fo_remm fo_remj fo_dq fo_comps fo_cmat fo_cnames].
-      fold d0. rewrite (recompute0_recompute I d), (recompute0_eset I e _ _ _ Hp).
+    - rewrite upd_est_explicit, !robj_est_explicit. unfold d0.
+      rewrite (recompute0_recompute I d), (recompute0_eset I e _ _ _ Hp).
       destruct a, b, c; reflexivity.
     - destruct a, b, c; reflexivity.
     - destruct a, b, c; reflexivity.
